@@ -12,6 +12,11 @@ Correspondence of S2T.Model.Serial (ser / deser / CLI shaping / cell normalisati
       call with the registry state machine of S2T/Model/SerialState.lean (op c05.hist) and judged afterwards, in that
       process state, by the oracle.  This harness process itself is useless for that: it calls `_get_type_registry()`
       before anything else and keeps every kind of object serialised and deserialised.
+  (e) binary payloads of every SIZE CLASS (props/c05_codec.py): described payloads from 0 B to 12 MiB - every power of two and
+      every integer constant of serialization.py / cli.py as b-1, b, b+1, six content patterns - at a binary leaf of a type-directed
+      instance and delivered by the extractors on generated files; the real text of the leaf against the model's b64enc at 3-aligned
+      windows (theorems C05_codec_window / _suffix / _length make the windows stand for the text), the rest against the model's answer
+      for the small twin, the restored payload byte for byte; the real CLI on a file with an 8 MiB + 1 attachment,
 and an oracle of the property statement itself on the real code (independent of the Lean model).
 """
 from __future__ import annotations
@@ -33,9 +38,10 @@ import types
 import typing
 
 import corpus
+from props import c05_codec as CODEC
 from run import Broken, Infra, Violation
 
-GEN = ["Schema", "SerialState", "SerialSites"]
+GEN = ["Schema", "SerialState", "SerialSites", "SerialCodec"]
 RULE = ("cases = type-directed instances of every registered dataclass (strict: every field from its hint; loose: "
         "+tuples/sets/foreign objects/mistyped fields), strings and dict keys drawn from the marker vocabulary "
         "(_type,_bytes,_bytesio,class names,base64 text); + results and units of the extractors on all fixtures and "
@@ -45,6 +51,9 @@ RULE = ("cases = type-directed instances of every registered dataclass (strict: 
         "+ the real cli.main under all four flag combinations on generated inputs (mbox / zip / tar with 1-3 results, each with none / one / several / "
         "equal / empty binary payloads; equal results); + consumption histories (objects whose several streams hold equal bytes restored 2-3 times, "
         "every stream read / closed / read through the interface after all were collected, restored again in between, every restored object re-observed). "
+        "+ binary payloads of every size class (powers of two 16 B .. 8 MiB and every integer constant of the serialiser / CLI source as b-1, b, b+1; one random size up to 12 MiB; "
+        "patterns random / 00 / FF / '+/' / whitespace-NUL-'=' / special first and last bytes, every pattern at every exact boundary up to 64 KiB) at a binary leaf of an instance and "
+        "in generated e-mails / documents, compared with the model at 3-aligned windows across every boundary, by length, around the leaf, and byte for byte after from_json. "
         "distinct = distinct encoded value; non-trivial = value contains a container, a binary leaf or a nested instance")
 ASSUMPTIONS = [
     "json.loads(json.dumps(j)) == j for plain data (None/bool/int/float/str/list/dict with str keys): CPython's json, "
@@ -59,11 +68,14 @@ ASSUMPTIONS = [
     "dataclasses.fields order, typing.get_type_hints, dict insertion order, str(key) are CPython's",
     "restored streams: the caller reads, rewinds and closes them (no write / truncate); sharing of lists / dicts / nested instances between restored "
     "objects is judged by the oracle only (identity walk + demonstrated effect), not modelled in Lean",
+    "binary payloads above 3 KiB are compared with the model's b64enc at sampled 3-aligned windows (across every power of two, every integer constant of the "
+    "source and their small multiples, random ones, head, tail), by the length formula and byte for byte after the round trip - not character by character; sizes above 12 MiB are not generated",
     "process histories: state that could make the round trip history-dependent lives in the inventoried kinds of cells (module-level "
     "containers / globals of serialization.py and cli.py, caches, mutable defaults, attribute stores in the path functions); anything else "
     "is only exercised by the fresh-process histories, not proved absent",
 ]
-TRUSTED = ["tools/gen/serial.py (registry/fields/hints/defaults/__post_init__ -> Lean schema)",
+TRUSTED = ["tools/gen/serial_codec.py (codec call sites of serialization.py -> Lean inventory) + harness/props/c05_codec.py (described payloads, size classes, windows)",
+           "tools/gen/serial.py (registry/fields/hints/defaults/__post_init__ -> Lean schema)",
            "tools/gen/serial_sites.py (returned expressions of the deserialiser's path, stream constructor sites, module-level objects, mentions of the "
            "flag-taking serialisers in cli.py -> Lean inventory)",
            "harness/builders/c14docs.py + the e-mail / mbox / zip / tar writers in harness/props/c05.py (generated inputs)",
@@ -104,6 +116,13 @@ def enc(v):
         return ["f", repr(v)]
     if isinstance(v, str):
         return ["s", v]
+    if isinstance(v, (io.BytesIO, bytearray, bytes)):
+        # a generated payload (props/c05_codec.py) travels as its description: a replay of a few characters stands for MiBs
+        raw = v.getvalue() if isinstance(v, io.BytesIO) else v
+        d = CODEC.lookup(raw)
+        if d is not None:
+            kind = "yi" if isinstance(v, io.BytesIO) else "ya" if isinstance(v, bytearray) else "y"
+            return ["yg", kind, d] + ([v.tell()] if isinstance(v, io.BytesIO) and v.tell() else [])
     if isinstance(v, io.BytesIO):
         # a stream that has been read carries its cursor (third element, ignored by the Lean side: the model's
         # serialiser encodes the whole buffer) so that a replay rebuilds the object in the same state
@@ -174,6 +193,14 @@ def dec(t):
         if len(t) > 2:
             b.seek(int(t[2]))
         return b
+    if tag == "yg":
+        raw = CODEC.payload(t[2])
+        if t[1] == "yi":
+            b = io.BytesIO(raw)
+            if len(t) > 3:
+                b.seek(int(t[3]))
+            return b
+        return bytearray(raw) if t[1] == "ya" else raw
     if tag == "l":
         return [dec(x) for x in t[1]]
     if tag == "tu":
@@ -409,6 +436,20 @@ def _eml_spec(i, atts):
     return {"k": "eml", "subject": f"mail {i}", "atts": [list(a) for a in atts]}
 
 
+def _payload_bytes(hx):
+    """payload of an attachment / picture tail: hex, or a description "@pattern:seed:length" (props/c05_codec.py)"""
+    return CODEC.payload(hx) if CODEC.is_desc(hx) else bytes.fromhex(hx)
+
+
+def _expand_payloads(spec):
+    """c14docs document spec with every described picture tail written out as hex (the builder takes hex)"""
+    if isinstance(spec, dict):
+        return {k: (CODEC.payload(v).hex() if k == "tail" and CODEC.is_desc(v) else _expand_payloads(v)) for k, v in spec.items()}
+    if isinstance(spec, list):
+        return [_expand_payloads(v) for v in spec]
+    return spec
+
+
 def _eml_bytes(spec):
     bnd = "=_s2t_c05_boundary"
     head = (f"From: alice@example.org\nTo: bob@example.org\nSubject: {spec.get('subject', 'mail')}\n"
@@ -418,7 +459,7 @@ def _eml_bytes(spec):
         return (head + 'Content-Type: text/plain; charset="utf-8"\n\n' + body).encode()
     parts = ['Content-Type: text/plain; charset="utf-8"\n\n' + body]
     for name, hx in spec["atts"]:
-        b64 = base64.encodebytes(bytes.fromhex(hx)).decode()
+        b64 = base64.encodebytes(_payload_bytes(hx)).decode()
         parts.append(f'Content-Type: application/octet-stream\nContent-Transfer-Encoding: base64\n'
                      f'Content-Disposition: attachment; filename="{name}"\n\n{b64}')
     text = head + f'Content-Type: multipart/mixed; boundary="{bnd}"\n\n' + "".join(f"--{bnd}\n{p}\n" for p in parts) + f"--{bnd}--\n"
@@ -436,7 +477,7 @@ def build_input(spec):
         data = spec.get("text", "").encode()
     elif k == "doc":
         from builders import c14docs
-        data = c14docs.build(spec["spec"])
+        data = c14docs.build(_expand_payloads(spec["spec"]))
     elif k == "zip":
         import zipfile
         bio = io.BytesIO()
@@ -463,11 +504,13 @@ def _input_text(spec):
     """one line a reader can follow"""
     k = spec["k"]
     if k == "eml":
-        return "eml(" + ", ".join(f"{n}:{len(h) // 2}B#{_PAYLOADS.index(h) if h in _PAYLOADS else 'x'}" for n, h in spec.get("atts", [])) + ")"
+        return "eml(" + ", ".join((f"{n}:{h}" if CODEC.is_desc(h) else f"{n}:{len(h) // 2}B#{_PAYLOADS.index(h) if h in _PAYLOADS else 'x'}")
+                                  for n, h in spec.get("atts", [])) + ")"
     if k == "mbox":
         return "mbox[" + ", ".join(_input_text(m) for m in spec["mails"]) + "]"
     if k == "doc":
-        return f"{spec['fmt']}({len(spec['spec']['media'])} pictures)"
+        big = [m["tail"] for m in spec["spec"]["media"].values() if CODEC.is_desc(m.get("tail"))]
+        return f"{spec['fmt']}({len(spec['spec']['media'])} pictures{' ' + ','.join(big) if big else ''})"
     if k in ("zip", "tar"):
         return k + "[" + ", ".join(f"{n}={_input_text(m)}" for n, m in spec["members"]) + "]"
     return k
@@ -1393,6 +1436,163 @@ def _cmp_rt(ctx, tag, desc, x, o, broken, counters):
     return not bad
 
 
+# =============================================================================================== binary payloads of every size class
+_BIN_KEYS = ("_bytes", "_bytesio")
+
+
+def codec_input_specs(rng, large):
+    """generated input files whose attachment / picture is a described payload of a large size class"""
+    top = max([n for n in large if n <= 2 ** 23 + 1] or large)      # the CLI prints this one on every run: the largest power-of-two class
+    att = rng.choice([n for n in large if 2 ** 18 < n < top] or large)
+    pic = rng.choice([n for n in large if n <= 2 ** 21 + 1] or large)
+    return [_eml_spec(90, [["big.bin", CODEC.desc("rand", rng.randrange(1000), top)], ["small.bin", _PAYLOADS[1]],
+                           ["mid.bin", CODEC.desc("edge", rng.randrange(1000), att)]]),
+            doc_spec(rng.choice(["docx", "odt"]), [CODEC.desc("rand", rng.randrange(1000), pic)])]
+
+
+def codec_cases(ctx, rng, pool, with_inputs=True):
+    """[(tag, desc, x_big, x_small, [(path, d)])]: x_big carries the described payload d at `path`, x_small is the same
+    object with the first 33 bytes of it there (small enough to go through the model as a whole)"""
+    consts = CODEC.source_constants(corpus.REPO)
+    small, large = CODEC.size_classes(rng, consts, ctx.thorough)
+    hosts = [(x, ls) for x, ls in ((x, CODEC.leaves(x)) for x in pool) if ls]
+    out = []
+    if not hosts:
+        ctx.notes.append("codec: no instance with a replaceable binary leaf in the pool")
+        return out
+    pats = list(CODEC.PATTERNS)
+    exact = set(CODEC.SMALL_BOUNDS) | {c for c in consts if c <= 65536}
+    plan = []
+    for i, n in enumerate(small):       # content x size: every pattern at every exact boundary, one (rotating) pattern beside it
+        plan += [(n, p) for p in pats] if n in exact else [(n, pats[i % len(pats)])]
+    big_pats = ["rand", "edge", "hi", "zero", "ws"]
+    k0 = rng.randrange(len(big_pats))
+    plan += [(n, big_pats[(k0 + i) % len(big_pats)]) for i, n in enumerate(large)]
+    for n, pat in plan:
+        d = CODEC.desc(pat, rng.randrange(1000), n)
+        raw = CODEC.payload(d)
+        x, ls = rng.choice(hosts)
+        path, leaf = rng.choice(ls)
+        xs, xb = copy.deepcopy(x), copy.deepcopy(x)
+        CODEC.set_at(xs, path, CODEC.like(leaf, raw[:33], cursor=0))
+        CODEC.set_at(xb, path, CODEC.like(leaf, raw, cursor=rng.choice([0, 0, n // 2, n])))
+        out.append(("instance", None, xb, xs, [(path, d)]))
+    if with_inputs:
+        for spec in codec_input_specs(rng, large):
+            for i, r in enumerate(_input_results(spec)):
+                found = [(p, l, CODEC.lookup(l.getvalue() if isinstance(l, io.BytesIO) else l)) for p, l in CODEC.leaves(r)]
+                found = [(p, l, d) for p, l, d in found if d is not None]
+                if not found:
+                    ctx.count("codec/input-without-the-payload")
+                    continue
+                xs = copy.deepcopy(r)
+                for p, l, dd in found:
+                    CODEC.set_at(xs, p, CODEC.like(l, CODEC.payload(dd)[:33], cursor=0))
+                out.append(("input", {"input": spec, "index": i}, r, xs, [(p, dd) for p, _, dd in found]))
+    return out
+
+
+def codec_correspondence(ctx, cases, broken):
+    """the real serialiser / deserialiser on payloads of every size class against the model: the text of each described leaf
+    at 3-aligned windows (each against the model's b64enc: C05_codec_window / _suffix / _length), everything around the leaves
+    against the model's answer for the small twin, the restored payloads byte for byte (C05_binary_restored)"""
+    from sharepoint2text.parsing.extractors import serialization as S
+    consts = CODEC.source_constants(corpus.REPO)
+    reqs, plan = [], []
+    for tag, desc, xb, xs, lvs in cases:
+        start = len(reqs)
+        reqs.append({"op": "c05.rt", "v": enc(xs)})
+        per = []
+        for path, d in lvs:
+            raw = CODEC.payload(d)
+            n = len(raw)
+            if n <= 3072:
+                wins, tail = ([(0, n // 3 * 3)] if n >= 3 else []), n // 3 * 3
+            else:
+                wins, tail = CODEC.windows(n, ctx.rng, consts)
+            per.append((len(reqs), wins, tail))
+            reqs.append({"op": "c05.b64", "bytes": list(raw[:33])})
+            reqs += [{"op": "c05.b64", "bytes": list(raw[o:o + w])} for o, w in wins]
+            reqs.append({"op": "c05.b64", "bytes": list(raw[tail:])})
+        plan.append((start, per, len(reqs)))
+    outs = pdrive(ctx, reqs)
+    for (tag, desc, xb, xs, lvs), (start, per, end) in zip(cases, plan):
+        ctx.case(("codec", tag, [d for _, d in lvs], json.dumps(reqs[start]["v"])[:4000]))
+        for _, d in lvs:
+            n = len(CODEC.payload(d))
+            ctx.count(f"codec/{tag}/2^{n.bit_length() - 1 if n else 0}")
+        o = outs[start]
+        if any("drv_error" in a for a in outs[start:end]):
+            broken.append(Broken("correspondence", "driver", str([a["drv_error"] for a in outs[start:end] if "drv_error" in a][:1])[:300],
+                                 case={"source": "codec", "payload": lvs[0][1]}))
+            continue
+        bad = []
+        j, jn, back = real_rt(xb)
+        js = j
+        for (path, d), (at, wins, tail) in zip(lvs, per):
+            raw = CODEC.payload(d)
+            n = len(raw)
+            try:
+                node = CODEC.get_at(j, path)
+            except (KeyError, IndexError, TypeError, StopIteration):
+                node = None
+            key = next(iter(node)) if isinstance(node, dict) and len(node) == 1 else None
+            if key not in _BIN_KEYS or not isinstance(node[key], str):
+                bad.append((f"{d}: leaf at {path}", str(node)[:80], "{'_bytes' | '_bytesio': text}"))
+                break
+            text = node[key]
+            if len(text) != 4 * ((n + 2) // 3):
+                bad.append((f"{d} at {path}: length of the text of {n} bytes (C05_codec_length)", len(text), 4 * ((n + 2) // 3)))
+            for (off, w), a in zip(wins, outs[at + 1:]):
+                got = text[4 * off // 3: 4 * (off + w) // 3]
+                if got != a["text"]:
+                    k = next((i for i, (p, q) in enumerate(zip(got, a["text"])) if p != q), min(len(got), len(a["text"])))
+                    bad.append((f"{d} at {path}: text of bytes [{off}, {off + w}) (C05_codec_window), first difference at character {4 * off // 3 + k}",
+                                got[max(0, k - 8): k + 12], a["text"][max(0, k - 8): k + 12]))
+                    break
+            a = outs[at + 1 + len(wins)]
+            if text[4 * tail // 3:] != a["text"]:
+                bad.append((f"{d} at {path}: text of the last {n - tail} bytes (C05_codec_suffix)", text[4 * tail // 3:][-24:], a["text"][-24:]))
+            js = CODEC.subst_json(js, path, {key: outs[at]["text"]})
+        if not bad:
+            if enc(js) != o.get("j"):
+                bad.append(("ser(include_binary=True) around the payload", json.dumps(enc(js))[:200], json.dumps(o.get("j"))[:200]))
+            if enc(jn) != o.get("jn"):
+                bad.append(("ser(include_binary=False)", json.dumps(enc(jn))[:200], json.dumps(o.get("jn"))[:200]))
+        if "ok" not in back:
+            bad.append(("deser outcome", back["err"], "ok"))
+        else:
+            y = back["ok"]
+            try:
+                if S.serialize_extraction(y) != j:
+                    bad.append(("re-serialised", "differs from to_json() of the original", "identical"))
+            except Exception as e:  # noqa
+                bad.append(("re-serialised", "raised " + _errname(e), "identical"))
+            for path, d in lvs:
+                raw = CODEC.payload(d)
+                n = len(raw)
+                try:
+                    leaf = CODEC.get_at(y, path)
+                    got = leaf.getvalue() if isinstance(leaf, io.BytesIO) else bytes(leaf)
+                except Exception as e:  # noqa
+                    bad.append((f"{d}: restored leaf at {path}", "unreachable: " + _errname(e), f"{n} bytes"))
+                    break
+                if got != raw:
+                    k = next((i for i, (p, q) in enumerate(zip(got, raw)) if p != q), min(len(got), n))
+                    bad.append((f"{d} at {path}: restored payload (C05_binary_restored)", f"{len(got)} bytes, equal up to byte {k}", f"{n} bytes"))
+                    break
+                if isinstance(leaf, io.BytesIO) and leaf.tell() != 0:
+                    bad.append((f"{d} at {path}: restored stream position", leaf.tell(), 0))
+                CODEC.set_at(y, path, CODEC.like(leaf, raw[:33], cursor=0))
+            if not bad and "back_ok" in o and enc(y) != o["back_ok"]:
+                bad.append(("deser value around the payload", json.dumps(enc(y))[:200], json.dumps(o["back_ok"])[:200]))
+        for what, impl, model in bad[:2]:
+            if len(broken) < 12:
+                broken.append(Broken("correspondence", "c05.codec", f"{tag}: {type(xb).__name__} with {[d for _, d in lvs]}: {what}: impl={impl!r} model={model!r}",
+                                     case={"source": "codec", "desc": desc, "payload": lvs[0][1], "value": enc(xb) if desc is None else None}))
+    return None
+
+
 def correspondence(ctx):
     broken, violations = [], []
     counters = {"unmodelled": 0}
@@ -1458,6 +1658,21 @@ def correspondence(ctx):
             broken.append(Broken("correspondence", "c05.noforeign", f"{tag}: extractor result contains a value of a type the serialiser does not know",
                                  case={"source": tag, "desc": desc}))
     ctx.sample({"source": cases[0][0], "value": reqs[0]["v"], "model": {k: outs[0].get(k) for k in ("wt", "nf", "json")}})
+    # ---------- (a') binary payloads of every size class (16 B .. 12 MiB), in instances and delivered by the extractors
+    ccases = codec_cases(ctx, rng, [x for tag, _, x in cases if tag == "strict"])
+    codec_correspondence(ctx, ccases, broken)
+    for tag, desc, xb, _, lvs in ccases:
+        d = lvs[0][1]
+        if tag == "input" and desc["input"]["k"] == "eml" and desc["index"] == 0:
+            # the real cli.main on a file with a large payload, all four flag combinations, judged by the oracle
+            results, runs = _cli_on_input(desc["input"])
+            for flags, rc, got, errtext in runs if results is not None else []:
+                ctx.case(("cli-main-large", d, flags))
+                for v in _judge_cli_output(flags, rc, got, errtext, results, {"cli": flags, "input": desc["input"]}):
+                    v.what = f"on generated input {_input_text(desc['input'])}: {v.what}"
+                    if not any(o.key == v.key for o in violations):
+                        violations.append(v)
+    del ccases
     # ---------- (c) malformed stream: one injected fault per serialised document + junk
     names = sorted(_reg())
     docs = []
@@ -2158,7 +2373,7 @@ def search(ctx, broken):
                 add(check_cli_inputs(ctx, [c["input"]]))
             elif c.get("value"):
                 x = dec(c["value"])
-                if c.get("source") in ("strict", "strict+marker-dicts") and dataclasses.is_dataclass(x):
+                if c.get("source") in ("strict", "strict+marker-dicts", "codec") and dataclasses.is_dataclass(x):
                     add(check_value(x, {"value": c["value"]}))
             elif c.get("doc") is not None and isinstance(c["doc"], dict):
                 pass  # a malformed document is outside the property's quantifier; the typed stream below decides
@@ -2174,6 +2389,18 @@ def search(ctx, broken):
             y = with_equal_payloads(x, rng)
             if y is not None:
                 add(check_value(y, {"value": enc(y)}))
+    # payloads of every size class: in instances, delivered by the extractors, printed by the CLI
+    cc = codec_cases(ctx, rng, instances(ctx, rng, 2, strict=True))
+    for tag, desc, xb, _, _ in cc:
+        add(check_value(xb, desc if desc is not None else {"value": enc(xb)}))
+        if tag == "input":
+            try:
+                for u in xb.iterate_units():
+                    add(check_value(u, dict(desc, unit=True)))
+            except Exception:
+                pass
+    add(check_cli_inputs(ctx, [desc["input"] for tag, desc, *_ in cc if tag == "input"]))
+    del cc
     for spec in gen_input_specs(rng, ctx.n(20, 100)):      # results of the extractors on generated inputs
         for i, r in enumerate(_input_results(spec)):
             add(check_value(r, {"input": spec, "index": i}))
